@@ -22,14 +22,15 @@ theorem source_patterns_tie :
   decide
 
 /-- `pattIter` gives the groups `FieldStorage._patt.finditer` gave on the live module for every
-string of length ≤ 5 over `a = ; "` (≤ 3 with a space) and a set of longer quoted-value cases -/
+string of length ≤ 4 over `a = ; "` (≤ 3 with a space), the strings of length 5 that start with `a` and
+hold two quotes, and a set of longer quoted-value cases -/
 theorem patt_table_tie :
     Gen.formsPattTable.all (fun t => t.all fun r =>
       pattIter (cpStr r.1) == r.2.map fun (a, b) => (cpStr a, b.map cpStr)) = true := by
   decide +kernel
 
 /-- `boundaryOf` gives the boundary that `Request._body` handed to `MultipartMarkup` on the live
-module for `multipart/` followed by every word of ≤ 4 atoms over `x ; LF " boundary=` -/
+module for `multipart/` followed by every word of ≤ 3 atoms over `x ; LF " boundary=` -/
 theorem boundary_table_tie :
     Gen.formsBoundaryTable.all (fun t => t.all fun r =>
       boundaryOf (cpStr r.1) == r.2.map cpStr) = true := by
